@@ -359,7 +359,7 @@ theorem delOf_keyedStep (R a : List ε) (hk : ∀ k ∈ a.map rawKey, keyOk k = 
       refine ⟨e, ⟨he, ?_⟩, hm, hq⟩
       -- a removal marker of the reply is never dropped
       rw [Bool.eq_false_iff]; intro hc
-      have := (delKeys_unmarked _ hk _ (List.contains_iff_mem.1 hc)).1
+      have := delKeys_unmarked _ hk _ (List.contains_iff_mem.1 hc)
       rw [hm] at this; cases this
   have h3 : delOf rawKey (loneOf rawKey a) k = (delOf rawKey a k && !setOf rawKey a k) := by
     unfold loneOf delOf
